@@ -366,3 +366,30 @@ Fixpoint node_rules (t : tree) : list nat :=
   | TN r kids => r :: (fix go (l : list tree) : list nat := match l with [] => [] | k :: l' => node_rules k ++ go l' end) kids
   | TA kids => (fix go (l : list tree) : list nat := match l with [] => [] | k :: l' => node_rules k ++ go l' end) kids
   end.
+
+(* ------------------------------------------------------------------ well-formedness for complete inheritance lists *)
+(* the expression holds a reference to a rule that is not a match rule *)
+Definition has_nm (K : nat -> kind) (e : expr) : bool :=
+  existsb (fun r => negb (is_match (K r))) (refs e).
+
+(* no sequence has an element that holds a non-match reference, can nevertheless be skipped, and is
+   followed by another element holding a non-match reference *)
+Fixpoint seq_ok (K : nat -> kind) (e : expr) : bool :=
+  match e with
+  | Term | Ref _ => true
+  | Seq es => (fix go (l : list expr) : bool :=
+                 match l with
+                 | [] => true
+                 | x :: l' => seq_ok K x
+                              && (if has_nm K x && skippable K x then negb (existsb (has_nm K) l') else true)
+                              && go l'
+                 end) es
+  | Choice es => (fix go (l : list expr) : bool := match l with [] => true | x :: l' => seq_ok K x && go l' end) es
+  | Opt e' | Plus e' => seq_ok K e'
+  end.
+
+(* wf_inh g K rank: no cycle through abstract rules (rank decreases along references between
+   abstract rules) and every body of an abstract rule is seq_ok *)
+Definition wf_inh (g : list rule) (K : nat -> kind) (rank : nat -> nat) : Prop :=
+  (forall x y, K x = KAbstract -> In y (rule_refs g x) -> K y = KAbstract -> rank y < rank x) /\
+  (forall x e, K x = KAbstract -> r_body (rule_of g x) = Body e -> seq_ok K e = true).
